@@ -118,6 +118,10 @@ class T:
     def classify(a, v):
         return None
 
+    @staticmethod
+    def label_class(a, W):
+        return ""
+
 
 def _p2n(a, key="n"):
     return "pow2" if a["mod"] == 2 ** a[key] else "nonpow2"
@@ -277,15 +281,16 @@ class SignedOutMultiplier(T):
 
     @staticmethod
     def variant(a):
-        return "zeroed" if a["z"] else "not-zeroed"
+        # inner work wires available to the controlled incrementers of the two's-complement steps
+        wwi = a["ww"] if a["z"] else 2 + a["ww"] - (2 * a["no"] + 1)
+        fallback = any(n >= 2 and (wwi - 2) + 1 < n for n in (a["nx"], a["ny"], a["no"] - 1))
+        return ("zeroed" if a["z"] else "not-zeroed") + (",incrementer-fallback" if fallback else "")
 
     @staticmethod
     def classify(a, v):
         sx, sy = sgn(v["x"], a["nx"]), sgn(v["y"], a["ny"])
-        if abs(sx) * abs(sy) >= 2 ** (a["no"] - 1):
-            return "magnitude-overflow"
-        if sx * sy == 0 and ((sx < 0) != (sy < 0)):
-            return "zero-times-negative"
+        if abs(sx) * abs(sy) >= 2 ** (a["no"] - 1) or (sx * sy == 0 and ((sx < 0) != (sy < 0))):
+            return "sign-edge"  # |x||y| does not fit no-1 bits, or 0 * negative
         return "regular"
 
 
@@ -350,6 +355,10 @@ class SignedOutSquare(OutSquare):
     def f(a, v):
         return {"out": (v["out"] + sgn(v["x"], a["nx"]) ** 2) % 2 ** a["no"]}
 
+    @staticmethod
+    def variant(a):
+        return ("zeroed" if a["z"] else "not-zeroed") + (",sign-bit-only" if a["nx"] == 1 else "")
+
 
 class OutPoly(T):
     @staticmethod
@@ -381,6 +390,11 @@ class OutPoly(T):
         fn, nvar = POLY[a["poly"]]
         return _p2n(a, "no") + (",const-term" if fn(*([0] * nvar)) % a["mod"] else "")
 
+    @staticmethod
+    def label_class(a, W):
+        # the decomposition tests the truth value of a wire label: keep that class of layouts apart in signatures
+        return ",first-work-label-0" if (W["work"] and W["work"][0] == 0) else ""
+
 
 class IntegerComparator(T):
     @staticmethod
@@ -404,7 +418,9 @@ class IntegerComparator(T):
 
     @staticmethod
     def variant(a):
-        return "geq" if a["geq"] else "lt"
+        v, top = a["value"], 2 ** a["n"]
+        cls = "v=0" if v == 0 else ("v<2^n" if v < top else ("v=2^n" if v == top else "v>2^n"))
+        return ("geq," if a["geq"] else "lt,") + cls
 
 
 class Incrementer(T):
@@ -519,19 +535,30 @@ def _ks(mod):
     return list(range(mod)) + [-1, mod, mod + 1]
 
 
+DROPPED = []
+
+
 def instances(tier):
     """[(template, args, [layouts])], simplest first.  Complete for the declared bound."""
+    del DROPPED[:]
     thorough = tier == "thorough"
     out = []
     ALL = LAYOUTS
     SEQ = ["seq"]
 
+    cap = 2 ** (21 if thorough else 18)
+
     def add(t, a, lays):
+        Tm = TEMPLATES[t]
+        n = sum(sz for _, sz in Tm.regs(a))
+        if (2 ** n) * len(Tm.domain(a)) > cap:  # bound on the simulated tensor (state entries x inputs)
+            DROPPED.append((t, a))
+            return
         out.append((t, a, lays))
 
     # --- Adder / PhaseAdder
     for n in range(1, 5 if thorough else 4):
-        for mod in range(1, 2 ** n + 1):
+        for mod in range(2, 2 ** n + 1):
             wws = [0, 2] if mod == 2 ** n else [2]
             for ww in wws:
                 for k in _ks(mod):
@@ -553,7 +580,7 @@ def instances(tier):
     for no in range(1, N + 1):
         for nx in range(1, N + 1):
             for ny in range(1, N + 1):
-                for mod in range(1, 2 ** no + 1):
+                for mod in range(2, 2 ** no + 1):
                     for ww in ([0, 2] if mod == 2 ** no else [2]):
                         lays = ALL if (nx == ny and (mod in (2 ** no, 2 ** no - 1))) else SEQ
                         add("OutAdder", {"nx": nx, "ny": ny, "no": no, "mod": mod, "ww": ww}, lays)
@@ -573,7 +600,7 @@ def instances(tier):
     if thorough:
         sizes += [(2, 2, 3), (3, 2, 3), (2, 3, 3), (3, 3, 3), (1, 3, 2), (3, 1, 3)]
     for nx, ny, no in sizes:
-        for mod in range(1, 2 ** no + 1):
+        for mod in range(2, 2 ** no + 1):
             for z in (0, 1):
                 if mod == 2 ** no:
                     wws = sorted({0, no, no + 1, 2 * no - 1, 2 * no})
@@ -747,18 +774,41 @@ def _judge(sig0, Tm, a, regs, dom, exp_vals, E, O, extra):
     return None
 
 
+HARNESS = (ImportError, MemoryError, OSError, KeyboardInterrupt, SystemExit)
+
+
 def check(spec):
-    import pennylane as qp
+    """One (instance, route): every exception raised by the implementation is a failure of that route with a narrow signature."""
     from mc import x_tmpl as X
 
     t, a, lay, route = spec["t"], spec["a"], spec["lay"], spec["route"]
     Tm = TEMPLATES[t]
     regs = Tm.regs(a)
     W = layout(regs, lay)
-    op = Tm.build(a, W)
+    variant = Tm.variant(a) + Tm.label_class(a, W)
+    stage = "build"
+    try:
+        op = Tm.build(a, W)
+        stage = route
+        return _check(spec, Tm, regs, W, op, variant)
+    except HARNESS:
+        raise
+    except X.Unsupported:
+        raise
+    except Exception as e:  # noqa: BLE001
+        import traceback
+
+        return bad(f"{t}[{variant}]:{stage}:exception:{type(e).__name__}", f"{type(e).__name__}: {e}"[:300], "no exception",
+                   traceback=traceback.format_exc()[-1500:])
+
+
+def _check(spec, Tm, regs, W, op, variant):
+    import pennylane as qp
+    from mc import x_tmpl as X
+
+    t, a, lay, route = spec["t"], spec["a"], spec["lay"], spec["route"]
     order = [w for name, _ in regs for w in W[name]]
     n = len(order)
-    variant = Tm.variant(a)
     dom = list(Tm.domain(a))
     if not dom:
         return skip("empty domain")
@@ -779,7 +829,13 @@ def check(spec):
     sigbase = f"{t}[{variant}]:{route}"
 
     if route == "matrix":
-        M = np.asarray(qp.matrix(op, wire_order=order), dtype=complex)
+        try:
+            M = np.asarray(qp.matrix(op, wire_order=order), dtype=complex)
+        except qp.exceptions.TransformError as e:
+            if "DynamicWire" in str(e):
+                # qp.matrix does not resolve dynamically allocated work wires: no matrix to compare (reported, not judged)
+                return skip("qp.matrix: dynamically allocated wires not resolvable")
+            raise
         if M.shape != (2 ** n, 2 ** n):
             return bad(f"{sigbase}:shape", list(M.shape), [2 ** n, 2 ** n], **extra)
         O = M @ cols
@@ -904,5 +960,6 @@ def run(ctx):
     ctx.coverage["alphabet"] = {"templates": sorted(TEMPLATES), "layouts": LAYOUTS, "polynomials": sorted(POLY),
                                 "routes": ["matrix (<= %d wires)" % MATRIX_MAX_WIRES, "device", "dec", "rule:<every applicable rule>", "mcm:<rule>"]}
     ctx.coverage["bound"] = {"register_bits": "1-3 (thorough 1-4)", "moduli": "1..2^n (all)", "constants": "all residues + {-1, mod, mod+1}",
-                             "inputs": "every basis input of the documented domain", "instances": len(inst)}
+                             "inputs": "every basis input of the documented domain", "instances": len(inst),
+                             "max_tensor_entries": 2 ** (18 if ctx.quick else 21), "instances_over_tensor_bound_not_run": len(DROPPED)}
     ctx.coverage["specs_per_template"] = per_t
